@@ -45,6 +45,7 @@ def instances(tier):
     out = [{"kind": "getter", "entity": "ac"}, {"kind": "getter", "entity": "zone"}, {"kind": "error_history"}]
     for c in CALLS:
         out.append({"kind": "request", "call": c})
+    out.append({"kind": "handshake_extra"})
     return out
 
 
@@ -279,11 +280,52 @@ def _error_history(ctx, p):
         ctx.reach(lab)
 
 
+def _handshake_extra(ctx, p):
+    """Both consoles interleave the same unsolicited status report (other values than their answers carry) at the same
+    place of the handshake: whatever the client makes of it, it makes the same of it over both generations."""
+    from .console import STEPS
+    step = STEPS[2 + ctx.choice("step", 4)]                # around the ability / AC status / timer status / zone status answer
+    pos = ("before", "after")[ctx.choice("pos", 2)]
+    what = ("ac", "zone")[ctx.choice("what", 2)]
+    st = _shared_state(ctx, [])
+    other = dict(st, power=0, sp=18, mode=1, fan=4, zpower=0, zpct=15, zsp=19)
+    snaps = {}
+    for gen in (4, 5):
+        g = Gen(gen)
+        inst = _installation(gen, st)
+        oth = _installation(gen, other)
+        with ApiRig(ctx, g, inst) as rig:
+            con = rig.console
+            keep_ac, keep_zone = dict(inst.ac_status), dict(inst.zone_status)
+            if what == "ac":
+                inst.ac_status = dict(oth.ac_status)
+                raw = con.ac_status_frame(pid=0x5A)
+                inst.ac_status = keep_ac
+            else:
+                inst.zone_status = dict(oth.zone_status)
+                raw = con.zone_status_frame(pid=0x5A)
+                inst.zone_status = keep_zone
+            con.extra[step] = [(pos, raw)]
+            rig.start()
+            rig.run(2.0)
+            ctx.check(rig.init_result is True, "equal_getters", detail=f"AT{gen} handshake failed with an unsolicited report interleaved")
+            a, z = rig.ac(0), rig.zone(0)
+            snaps[gen] = (_norm(a.power_state), a.target_temperature, _norm(a.selected_mode), _norm(a.selected_fan_speed), _norm(z.power_state),
+                          z.current_damper_percentage, z.target_temperature)
+    names = ("ac.power_state", "ac.target_temperature", "ac.selected_mode", "ac.selected_fan_speed", "zone.power_state", "zone.damper", "zone.target_temperature")
+    for nm, x, y in zip(names, snaps[4], snaps[5]):
+        ctx.check(_eq(x, y), "equal_getters", detail={"step": step, "position": pos, "report": what, "attribute": nm, "at4": repr(x), "at5": repr(y)})
+    for lab in expect_labels("quick"):
+        ctx.reach(lab)
+
+
 def run(ctx, p):
     A = importlib.import_module("pyairtouch.api")
     kind = p["kind"]
     if kind == "error_history":
         return _error_history(ctx, p)
+    if kind == "handshake_extra":
+        return _handshake_extra(ctx, p)
     entity = p.get("entity")
     if kind == "getter":
         getters = AC_GETTERS if entity == "ac" else ZONE_GETTERS
